@@ -139,8 +139,7 @@ def cvFoldM {ε μ σ} (fits : List (Except ε μ)) (score : μ → Except ε (L
 /-- the scripted tables (`cvFold`'s arguments) that a fold with real fit results amounts to -/
 def scriptOf {ε μ σ} (fits : List (Except ε μ)) (score : μ → Except ε (List σ)) :
     List (Except ε Unit) × List (Except ε (List σ)) :=
-  (fits.map (fun f => match f with | .ok _ => .ok () | .error e => .error e),
-   fits.map (fun f => match f with | .ok md => score md | .error e => .error e))
+  (fits.map (fun f => f.map fun _ => ()), fits.map (fun f => f.bind score))
 
 structure CvOut (α β ε σ : Type) where
   result : Except ε (List (List σ))
